@@ -97,6 +97,11 @@ pub fn entity_conversions() {
     let (w2, n2, b2) = fed(&h2);
     assert!(n1 == 1 && n2 == 1 && b1 == 0 && b2 == 0, "handle hashing is not a single u64");
     assert!((w1 == w2) == (h == h2), "hash input is not an injective function of (key, generation)");
+    if id == 3 && (key2 & 0xff) == 3 {
+        let t1: Entity<ArchTri> = h.try_into().ok().unwrap();
+        let t2: Entity<ArchTri> = h2.try_into().ok().unwrap();
+        assert!((t1 == t2) == (h == h2), "Eq on typed handles disagrees with the dynamic copies");
+    }
     cover!(id == 3 && h != h2, "declared id, two different handles");
     cover!(id == 254, "second declared id");
     cover!(id != 3 && id != 254, "undeclared id");
@@ -139,7 +144,16 @@ pub fn direct_conversions() {
     let same = idx == idx2 && ver == ver2 && other == other2;
     assert!((da == db) == same, "Eq on direct handles is not bitwise");
     assert!((fed(&da).0 == fed(&db).0) == same, "hash input of direct handles is not injective");
+    // typed direct handles: Eq is bitwise on (index, version) too, and consistent with the dynamic copies
+    if !other && !other2 {
+        let ta = direct_of::<Tri>(idx, ver);
+        let tb = direct_of::<Tri>(idx2, ver2);
+        assert!((ta == tb) == (idx == idx2 && ver == ver2), "Eq on typed direct handles is not bitwise on (index, version)");
+        assert!((ta == tb) == (ta.into_any() == tb.into_any()), "typed and dynamic direct handles disagree on equality");
+        assert!((ta == tb) == (fed(&ta).0 == fed(&tb).0), "equal typed direct handles hash differently (or unequal ones feed the same word)");
+    }
     cover!(same, "equal direct handles");
+    cover!(!other && !other2 && idx == idx2 && ver != ver2, "same dense index at different archetype versions");
     cover!(idx == idx2 && ver == ver2 && other != other2, "same index and version in two archetypes");
 }
 
@@ -172,4 +186,48 @@ pub fn created_ids() {
 
 harness! { fn c14_entity_conversions() unwind(10) { entity_conversions() } }
 harness! { fn c14_direct_conversions() unwind(10) { direct_conversions() } }
+/// Generated tables of a world whose explicit ids DESCEND in declaration order (7, 0, 1):
+/// every table maps a handle to the variant of its own archetype, for entity and direct handles,
+/// and the world-level calls taking dynamic keys are routed accordingly.
+pub fn tables_descending_ids() {
+    use crate::c15::wi::zero::*;
+    use crate::c15::wi::{X, Y, Z};
+    let mut world = WZ::new();
+    let e7 = world.create::<B7>((X(1), Y(2), Z(3)));
+    let e0 = world.create::<B0>((Z(4), Y(5)));
+    let e1 = world.create::<B1>((X(6),));
+    let which = sym::any_u8();
+    sym::assume(which < 3);
+    let any: EntityAny = match which { 0 => e7.into_any(), 1 => e0.into_any(), _ => e1.into_any() };
+    let da: EntityDirectAny = world.to_direct(any).unwrap();
+    let want_id = match which { 0 => 7, 1 => 0, _ => 1 };
+    assert!(any.archetype_id() == want_id && da.archetype_id() == want_id);
+    match SelectEntity::try_from(any) {
+        Ok(SelectEntity::B7(x)) => assert!(which == 0 && x == e7),
+        Ok(SelectEntity::B0(x)) => assert!(which == 1 && x == e0),
+        Ok(SelectEntity::B1(x)) => assert!(which == 2 && x == e1),
+        Err(_) => panic!("SelectEntity rejected a declared id"),
+    }
+    match SelectEntityDirect::try_from(da) {
+        Ok(SelectEntityDirect::B7(x)) => assert!(which == 0 && x.into_any() == da, "SelectEntityDirect maps a direct handle to another archetype's variant"),
+        Ok(SelectEntityDirect::B0(x)) => assert!(which == 1 && x.into_any() == da, "SelectEntityDirect maps a direct handle to another archetype's variant"),
+        Ok(SelectEntityDirect::B1(x)) => assert!(which == 2 && x.into_any() == da, "SelectEntityDirect maps a direct handle to another archetype's variant"),
+        Err(_) => panic!("SelectEntityDirect rejected a declared id"),
+    }
+    match __WZSelectTotal::try_from(da) {
+        Ok(__WZSelectTotal::B7Direct(_)) => assert!(which == 0),
+        Ok(__WZSelectTotal::B0Direct(_)) => assert!(which == 1),
+        Ok(__WZSelectTotal::B1Direct(_)) => assert!(which == 2),
+        _ => panic!("__SelectTotal mapped a direct handle to a wrong variant"),
+    }
+    assert!(SelectArchetype::try_from(any).ok().unwrap().archetype_id() == want_id);
+    // world-level calls with the dynamic direct key act on the handle's own archetype
+    assert!(world.contains(da) && world.contains(any));
+    assert!(world.destroy(da).is_some());
+    assert!(world.b_7.len() == (which != 0) as usize && world.b_0.len() == (which != 1) as usize && world.b_1.len() == (which != 2) as usize, "World::destroy(EntityDirectAny) destroyed an entity of another archetype");
+    cover!(which == 0, "the first-declared archetype carries the HIGHEST id");
+    std::mem::forget(world);
+}
+
+harness! { fn c14_tables_descending_ids() unwind(6) { tables_descending_ids() } }
 harness! { fn c14_created_ids() unwind(10) { created_ids() } }
